@@ -1774,11 +1774,13 @@ static void op_codec_batch(json_t *op, json_t *ev)
 	const char *dir = jstr(op, "dir", "enc");
 	int isenc = !strcmp(dir, "enc");
 	size_t len = (size_t)jint(op, "len", 3), npre, nalpha = 256, rem, total = 1;
+	size_t nsuf = 0;
+	unsigned char *suf = json_object_get(op, "suffix") ? list_bytes(json_object_get(op, "suffix"), &nsuf) : NULL;
 	unsigned char *pre = list_bytes(json_object_get(op, "prefix"), &npre), *alpha = NULL;
 	json_t *outs = json_array(), *rets = json_array(), *nulls = json_array();
 	if (!isenc) alpha = list_bytes(json_object_get(op, "alpha"), &nalpha);
-	if (npre > len) die("prefix too long");
-	rem = len - npre;
+	if (npre + nsuf > len) die("prefix too long");
+	rem = len - npre - nsuf;
 	for (size_t k = 0; k < rem; k++) total *= nalpha;
 	if (total > 300000) die("batch too large");
 	for (size_t i = 0; i < total; i++) {
@@ -1787,8 +1789,9 @@ static void op_codec_batch(json_t *op, json_t *ev)
 		memcpy(in, pre, npre);
 		for (size_t k = 0; k < rem; k++) {
 			size_t d = x % nalpha; x /= nalpha;
-			in[len - 1 - k] = isenc ? (unsigned char)d : alpha[d];
+			in[len - nsuf - 1 - k] = isenc ? (unsigned char)d : alpha[d];
 		}
+		if (nsuf) memcpy(in + len - nsuf, suf, nsuf);
 		in[len] = 0;
 		if (isenc) {
 			char *out = NULL;
@@ -1814,7 +1817,7 @@ static void op_codec_batch(json_t *op, json_t *ev)
 	json_object_set_new(ev, "outs", outs);
 	json_object_set_new(ev, "rets", rets);
 	json_object_set_new(ev, "nulls", nulls);
-	free(pre); free(alpha);
+	free(pre); free(alpha); free(suf);
 }
 
 /* ============================================================ threads (C18) */
@@ -1822,7 +1825,18 @@ static void op_codec_batch(json_t *op, json_t *ev)
  * Every spec is first executed sequentially (own builder and checker, shared
  * ring), then all specs run concurrently, one thread each, with a random start
  * skew.  One event per spec carries both result lists. */
-struct tspec { const char *alg; const jwk_item_t *key, *vkey; int det; long iters; unsigned skew; json_t *res; };
+struct tspec { const char *alg; const jwk_item_t *key, *vkey; int det; long iters; unsigned skew; json_t *res;
+	       jwk_set_t *set; const char *kid, *vkid; };
+struct tcb { jwk_set_t *set; const char *kid; jwt_alg_t alg; };
+/* the usual lookup-by-kid callback: the key comes from the shared keyring at every call */
+static int thread_kid_cb(jwt_t *jwt, jwt_config_t *config)
+{
+	struct tcb *c = config->ctx;
+	(void)jwt;
+	config->key = jwks_find_bykid(c->set, c->kid);
+	config->alg = c->alg;
+	return config->key ? 0 : 1;
+}
 static void *thread_body(void *arg)
 {
 	struct tspec *t = arg;
@@ -1830,9 +1844,15 @@ static void *thread_body(void *arg)
 	jwt_checker_t *c = jwt_checker_new();
 	json_t *res = json_array();
 	jwt_value_t jv;
+	struct tcb bcb = { t->set, t->kid, alg_enum(t->alg) }, ccb = { t->set, t->vkid, alg_enum(t->alg) };
 	if (t->skew) usleep(t->skew);
-	jwt_builder_setkey(b, alg_enum(t->alg), t->key);
-	jwt_checker_setkey(c, alg_enum(t->alg), t->vkey);
+	if (t->kid) {
+		jwt_builder_setcb(b, thread_kid_cb, &bcb);
+		jwt_checker_setcb(c, thread_kid_cb, &ccb);
+	} else {
+		jwt_builder_setkey(b, alg_enum(t->alg), t->key);
+		jwt_checker_setkey(c, alg_enum(t->alg), t->vkey);
+	}
 	for (long j = 0; j < t->iters; j++) {
 		char *tok, dig[20] = "-";
 		int r1 = -1, r2 = -1, g;
@@ -1871,6 +1891,12 @@ static void op_threads(json_t *op, json_t *unused)
 		ts[i].key = jwks_item_get(r->set, (size_t)jint(sp, "key", 0));
 		ts[i].vkey = jwks_item_get(r->set, (size_t)jint(sp, "vkey", 0));
 		ts[i].det = (int)jint(sp, "det", 0);
+		ts[i].set = r->set;
+		if (jint(op, "bykid", 0)) {
+			ts[i].kid = jwks_item_kid(ts[i].key);
+			ts[i].vkid = jwks_item_kid(ts[i].vkey);
+			if (!ts[i].kid || !ts[i].vkid) die("Threads bykid: key without kid");
+		}
 		ts[i].iters = jint(op, "iters", 10);
 		ts[i].skew = 0;
 	}
@@ -2013,7 +2039,7 @@ static void run_op(json_t *op)
 		op_load(op, ev);
 	} else if (!strcmp(name, "ItemGet")) {
 		struct ring *r = ring_of(op);
-		const jwk_item_t *it = jwks_item_get(r->set, (size_t)jint(op, "index", 0));
+		const jwk_item_t *it = jwks_item_get(r->set, ((size_t)jint(op, "hi", 0) << 32) | (size_t)jint(op, "index", 0));
 		int id = -1;
 		for (int i = 0; i < r->n; i++) if (r->it[i].ptr == it) id = r->it[i].id;
 		json_object_set_new(ev, "id", json_integer(it ? (id >= 0 ? id : -2) : -1));
@@ -2029,7 +2055,7 @@ static void run_op(json_t *op)
 		struct ring *r = ring_of(op);
 		int ret;
 		json_object_set_new(ev, "flags_before", ring_flags(r));
-		if (!strcmp(name, "ItemFree")) ret = LIB(jwks_item_free(r->set, (size_t)jint(op, "index", 0)));
+		if (!strcmp(name, "ItemFree")) ret = LIB(jwks_item_free(r->set, ((size_t)jint(op, "hi", 0) << 32) | (size_t)jint(op, "index", 0)));
 		else if (!strcmp(name, "FreeBad")) ret = LIB(jwks_item_free_bad(r->set));
 		else ret = LIB(jwks_item_free_all(r->set));
 		json_object_set_new(ev, "ret", json_integer(ret));
